@@ -91,6 +91,9 @@ def late_reply(r, i):
                      {'at': T + 1, 'op': 'call', 'id': 'c2'},
                      {'at': late + r.choice([0, 1, 2]), 'op': 'call', 'id': 'c3', 'timeout': 40},
                      {'at': late + 12, 'op': 'call', 'id': 'c4', 'timeout': 40}]}
+  if r.random() < 0.3:
+    # the first request's write itself is slow: the time-out interrupts it after part of the frame was accepted
+    spec['endpoints'][0]['send_delay'] = T + r.choice([1, 3])
   return spec
 
 
